@@ -191,8 +191,8 @@ Proof.
   cbn [with_offsets fold_left]. rewrite IH.
   cbn [bytes_of flat_map]. fold (bytes_of L). rewrite app_length.
   destruct L as [|e' L'].
-  - cbn [bytes_of flat_map length]. destruct e; cbn [se_off se_size se_key];
-      pose proof (enc_length (Ins id k)); pose proof (enc_length (Tomb id)); cbn [length] in *; lia.
+  - cbn [bytes_of flat_map length]. pose proof (enc_length e) as He.
+    destruct e; unfold se_size; cbn [se_off se_key length] in *; lia.
   - lia.
 Qed.
 
